@@ -8,4 +8,46 @@ CHECKS = {
         assumptions=["rapid v1.3.0 generation and shrinking", "premultiplied *image.RGBA sources with 0<a<255 are compared within +-1 on RGB (un-multiplication is not uniquely defined)"],
         tests=[dict(name="TestC01", quick=3200, thorough=80000)],
     ),
+    "C02": dict(
+        level="exploration",
+        rule="rapid draws picture recipe x full EncoderOptions product (lossy and lossless, presets, partitions, segments, passes, targets, filters, alpha triple, metadata subsets); "
+             "oracle: independent RIFF/VP8/VP8L structural validator (riffwalk) + declared size/alpha/partition count vs request + package readers accept + libwebp 1.2.4 (dlopen) and golang.org/x/image "
+             "decode the same bytes to the same samples as webp.Decode (Y/U/V planes for lossy, RGBA via a reference fancy upsampler for lossy+alpha, ARGB for lossless). "
+             "Non-trivial: >=2 colours; distinct = (codec, Method, metadata presence/parity, payload parities, partitions, segments, filter type/level0, Pass, target mode, sharp, preprocessing).",
+        assumptions=["libwebp.so.7 (1.2.4) and x/image as independent decoders; a case where they disagree with each other is counted inconclusive, never a violation",
+                     "riffwalk strictness = what a conforming writer must respect (chunk order VP8X,ICCP,ANIM,image,EXIF,XMP; flags <=> chunks; pad bytes zero)"],
+        tests=[dict(name="TestC02", quick=6400, thorough=150000)],
+    ),
+    "C07": dict(
+        level="exploration",
+        rule="rapid draws pictures biased to transparency (binary, few levels, gradient, noise, semi-transparent flat, fully transparent) x lossy options incl. AlphaCompression/AlphaFiltering/AlphaQuality/Method/Exact; "
+             "oracle: AlphaQuality 100 => decoded alpha == source alpha exactly; opaque source => no ALPH/flag and opaque decode; AlphaQuality<100 => #levels <= documented mapping and min/max preserved; libwebp's alpha equals the package's. "
+             "Non-trivial: >=2 source alpha levels; distinct = (alpha class, level-count bucket, ALPH method x filter chosen, Method, quantised or not).",
+        assumptions=["documented level mapping: 2+q/5 for q<=70, 16+(q-70)*8 above (internal/lossy/alpha.go comment)"],
+        tests=[dict(name="TestC07", quick=4800, thorough=90000)],
+    ),
+    "C15": dict(
+        level="exploration",
+        rule="rapid draws blobs (nil, empty, 1 byte, odd, even, chunk-like tokens, up to 70 KB) for every subset of ICC/EXIF/XMP x {lossy, lossy+alpha, lossless, lossless+alpha stills; 1-4 frame lossy/lossless animations}; "
+             "oracle: riffwalk validates; blobs byte-exact in the file, via Demuxer.GetChunk and via animation.DecodeBytes; flags <=> chunks; image/ALPH chunk bytes and decoded pixels/playback identical with and without metadata; thorough adds the 100 MB cap (+1 rejected, exactly 100 MB accepted and read back). "
+             "Non-trivial: >=1 non-empty blob; distinct = (kind, subset+parities, codec, alpha, frame count).",
+        assumptions=["an empty (zero-length) blob may be stored as an empty chunk or omitted; both accepted"],
+        tests=[dict(name="TestC15", quick=3200, thorough=48000), dict(name="TestC15Limit", quick=1, thorough=1, shards=1, thorough_only=True, no_replay=True)],
+    ),
+    "C19": dict(
+        level="exploration",
+        rule="rapid draws an NRGBA picture and 3-6 equivalent presentations (sub-image of a larger garbage-filled parent, non-zero Rect.Min, stride padding with garbage, generic image.Image wrapper, *image.RGBA for opaque pictures) x lossy/lossless options; "
+             "oracle (metamorphic): all presentations give byte-identical files from a pool-flushed state; changing only out-of-bounds bytes changes nothing; SHA-256 of the caller's whole backing buffer unchanged. "
+             "Non-trivial: >=2 colours and >=3 presentations; distinct = (codec, alpha, Exact, sharp, preprocessing, Method, presentation list).",
+        assumptions=["sync.Pool state is normalised (runtime.GC x2) before each compared encode; history dependence is C11's subject"],
+        tests=[dict(name="TestC19", quick=3200, thorough=60000)],
+    ),
+    "C20": dict(
+        level="exploration",
+        rule="rapid draws option sets with 1-3 fields overwritten by boundary/out-of-range/extreme values (incl. NaN, +-Inf, MinInt, MaxInt), sentinel substitutions, lossy-only fields under Lossless, EmulateJpegSize toggles, nil options, nil writer/image, boundary image sizes (0, 1, 16383, 16384); "
+             "oracle: never panics; documented-invalid => error and nothing written; documented-valid => success + C02 structural validator + decodes; sentinel == documented default byte for byte; lossy-only options do not change lossless bytes; nil options == DefaultOptions(). "
+             "Non-trivial: every case (each sits on a boundary or relation); distinct = (mode, field, boundary kind).",
+        assumptions=["documented ranges = EncoderOptions field comments; Segments/Pass 0 count as 'use default' as validateConfig documents"],
+        tests=[dict(name="TestC20", quick=6400, thorough=200000)],
+    ),
 }
